@@ -88,6 +88,16 @@ class Builder:
         self.files[str(p)] = data
         return str(p)
 
+    def _wrong(self, sh, k):
+        """A supplied digest that is wrong, in one of the NOTATIONS the language has for literal digest bytes: a hex string,
+        {raw: hex}, {file_direct: path of a file holding the bytes}."""
+        form = (sh.get("supform", 0) + k) % 3
+        if form == 1:
+            return {"raw": WRONG}
+        if form == 2:
+            return {"file_direct": self._file(bytes.fromhex(WRONG), f"wrong_digest_{self.n}.bin")}
+        return WRONG
+
     def desc(self, shape: dict, creator=None, level=0) -> dict:
         """Description for `shape`.  creator(desc) -> bytes is needed for 'right' supplied digests, exact padding and
         dependencies given by path (it is the real tool; its output is only used to *measure*)."""
@@ -185,7 +195,7 @@ class Builder:
                 continue
             d = {"suit-digest-algorithm-id": alg}
             if sup == "wrong":
-                d["suit-digest-bytes"] = WRONG
+                d["suit-digest-bytes"] = self._wrong(sh, k)
             elif sup == "right":
                 d["suit-digest-bytes"] = "@right"
             elif sup == "empty":
@@ -203,7 +213,7 @@ class Builder:
                 payloads[name] = self._file(data, sh.get("paynames", {}).get(name))
         dig = {"suit-digest-algorithm-id": sh.get("walg", ALGS[0])}
         if sh.get("wsup") == "wrong":
-            dig["suit-digest-bytes"] = WRONG
+            dig["suit-digest-bytes"] = self._wrong(sh, 1)
         elif sh.get("wsup") == "right":
             dig["suit-digest-bytes"] = "@right"
         env = {"suit-authentication-wrapper": {"SuitDigest": dig}, "suit-manifest": mf}
@@ -294,6 +304,7 @@ def random_shape(rng, depth=0, maxdepth=2, with_cid=False, small=False):
                   for i in range(rng.choice([0, 0, 1, 2]))],
           "deps": [], "imgs": []}
     sh["eorder"] = (sh["seq"] % 7 + len(sh["pay"]) + len(mem)) % 4   # derived, so that the random stream is not shifted
+    sh["supform"] = (sh["seq"] % 5 + len(mem)) % 3
     if with_cid or rng.random() < 0.5:
         sh["cid"] = [rng.choice(["first", "mid", "last"]), "nordicsemi.com", "nRF54H20_sample_app"]
     if depth < maxdepth and rng.random() < (0.6 if depth == 0 else 0.4):
